@@ -100,6 +100,8 @@ pub struct Case {
     pub entropy_seed: u64,
     pub knobs: ExecKnobs,
     pub end_with_drop: bool,
+    /// a scripted client: few delays, and it rarely lingers at a stop (see `on_stopped`)
+    pub fast_client: bool,
 }
 
 impl Case {
@@ -110,7 +112,7 @@ impl Case {
             "ops": self.ops.iter().map(|o| o.to_json()).collect::<Vec<_>>(),
             "lines_start_at_1": self.lines_start_at_1,
             "sched_seed": format!("{:#x}", self.seed), "entropy_seed": format!("{:#x}", self.entropy_seed),
-            "knobs": self.knobs.to_json(), "end_with_drop": self.end_with_drop,
+            "knobs": self.knobs.to_json(), "end_with_drop": self.end_with_drop, "fast_client": self.fast_client,
         })
     }
     pub fn from_json(v: &Value) -> Option<Case> {
@@ -128,6 +130,7 @@ impl Case {
             entropy_seed: v.get("entropy_seed").and_then(|s| s.as_str()).and_then(parse_u64)?,
             knobs: ExecKnobs::from_json(v.get("knobs")?)?,
             end_with_drop: v.get("end_with_drop").and_then(|b| b.as_bool()).unwrap_or(false),
+            fast_client: v.get("fast_client").and_then(|b| b.as_bool()).unwrap_or(false),
         })
     }
 }
@@ -236,14 +239,19 @@ pub fn gen_case(seed: u64, k: u64) -> Case {
     let mut w: Vec<u32> = (0..13).map(|_| 1 + r.below(6) as u32).collect();
     // one case in four is a "breakpoint churn" session: the breakpoint list is replaced again and
     // again while the machine runs (races between the session's write and the machine thread's reads)
+    let mut fast_client = false;
     if r.chance(1, 4) {
         w = vec![4, 1, 5, 1, 1, 1, 1, 0, 2, 1, 12, 0, 1];
+    } else if r.chance(1, 3) {
+        // one case in four is a scripted stepper: wait for a stop, step, continue, back to back
+        w = vec![8, 1, 8, 5, 4, 1, 1, 0, 1, 1, 1, 0, 1];
+        fast_client = true;
     }
     let delays: [u64; 8] = [0, 0, 1_000, 10_000, 49_000, 50_000, 51_000, 200_000];
     let n_ops = r.range(6, 40);
     let mut ops = vec![];
     for _ in 0..n_ops {
-        if r.chance(2, 3) {
+        if r.chance(if fast_client { 1 } else { 4 }, 6) {
             ops.push(Op::Delay(*r.pick(&delays) + r.below(500) as u64));
         }
         let op = match r.weighted(&w) {
@@ -290,6 +298,7 @@ pub fn gen_case(seed: u64, k: u64) -> Case {
             max_steps: 600_000,
         },
         end_with_drop: r.chance(1, 4),
+        fast_client,
     }
 }
 
@@ -588,11 +597,16 @@ impl<'a> Session<'a> {
                 return Ok(());
             }
         };
-        // the machine must be halted: a second look after >= 51 ms of simulated time
-        clock::sleep(Duration::from_millis(51));
-        if self.query_registers(Some(idx))?.is_none() {
-            self.view = View::Unknown;
-            return Ok(());
+        // the machine must be halted: a second look after >= 51 ms of simulated time - at two stops out of
+        // three (a scripted client: one out of four); at the others the client goes on at once, so that its next requests reach the session
+        // within one 50 ms poll of the machine thread (a scripted or pipelining client)
+        let linger = rng::derive(self.case.seed, "c19.second_look", self.v.stops_observed) % 12;
+        if linger >= if self.case.fast_client { 9 } else { 4 } {
+            clock::sleep(Duration::from_millis(51));
+            if self.query_registers(Some(idx))?.is_none() {
+                self.view = View::Unknown;
+                return Ok(());
+            }
         }
         if self.v.found.is_some() {
             self.view = View::Stopped(idx);
@@ -611,32 +625,7 @@ impl<'a> Session<'a> {
                 self.fail("step_target", "step_target", format!("after the step the machine should be at instruction #{} (pc ${:04x}) of the uninterrupted run, it is at #{} (pc ${:04x})", exp, e.pc, idx, g.pc));
             }
         } else if let Some(i0) = self.run_from.take() {
-            // free run from i0 (-1: launch, nothing executed yet) to idx; the instruction at i0
-            // itself may lie on a breakpoint (resuming from it is legal)
-            let throughout = self.run_bps_throughout.clone();
-            let added = self.run_bps_added.clone();
-            for k in ((i0 + 1) as usize)..idx {
-                let pc = self.reference.trace[k].pc;
-                self.count("no_breakpoint_run_over");
-                let mut hit = self.in_ranges(pc, &throughout);
-                if !hit {
-                    for (bp, since) in &added {
-                        if let Some(s) = since {
-                            if k > *s && self.in_ranges(pc, &[*bp]) {
-                                hit = true;
-                            }
-                        }
-                    }
-                }
-                if hit {
-                    self.fail(
-                        "breakpoint_run_over",
-                        "breakpoint_run_over",
-                        format!("free run from instruction #{} to #{}: instruction #{} at pc ${:04x} lies in an active breakpoint range but was executed without stopping", i0, idx, k, pc),
-                    );
-                    break;
-                }
-            }
+            self.check_free_run(i0, idx);
             if !self.pause_sent && self.v.found.is_none() {
                 let pc = self.reference.trace[idx].pc;
                 let all = self.run_bps_ever.clone();
@@ -650,6 +639,49 @@ impl<'a> Session<'a> {
         self.run_bps_added.clear();
         self.view = View::Stopped(idx);
         Ok(())
+    }
+
+    /// free run from i0 (-1: launch, nothing executed yet) up to (excluding) `end`; the instruction at i0
+    /// itself may lie on a breakpoint (resuming from it is legal)
+    fn check_free_run(&mut self, i0: i64, end: usize) {
+        let throughout = self.run_bps_throughout.clone();
+        let added = self.run_bps_added.clone();
+        for k in ((i0 + 1) as usize)..end {
+            let pc = self.reference.trace[k].pc;
+            self.count("no_breakpoint_run_over");
+            let mut hit = self.in_ranges(pc, &throughout);
+            if !hit {
+                for (bp, since) in &added {
+                    if let Some(s) = since {
+                        if k > *s && self.in_ranges(pc, &[*bp]) {
+                            hit = true;
+                        }
+                    }
+                }
+            }
+            if hit {
+                self.fail(
+                    "breakpoint_run_over",
+                    "breakpoint_run_over",
+                    format!("free run from instruction #{} to #{}: instruction #{} at pc ${:04x} lies in an active breakpoint range but was executed without stopping", i0, end, k, pc),
+                );
+                break;
+            }
+        }
+    }
+
+    /// The client learns that the test ended. A free run that ends the program executed every remaining
+    /// instruction of the reference run, so none of them may lie on an active breakpoint.
+    fn on_terminated(&mut self) {
+        self.v.terminated = true;
+        if self.view == View::Running && !self.pause_sent && self.v.found.is_none() {
+            if let Some(i0) = self.run_from.take() {
+                let end = self.reference.trace.len();
+                self.count("terminated_run_checked");
+                self.check_free_run(i0, end);
+            }
+        }
+        self.view = View::Terminated;
     }
 
     fn begin_free_run(&mut self, from: i64) {
@@ -719,8 +751,7 @@ impl<'a> Session<'a> {
         // keep the client's view up to date with what has already arrived
         self.dap.drain();
         if self.dap.take_event("terminated").is_some() {
-            self.v.terminated = true;
-            self.view = View::Terminated;
+            self.on_terminated();
         }
         if self.view == View::Running {
             if self.dap.take_event("stopped").is_some() {
@@ -736,8 +767,7 @@ impl<'a> Session<'a> {
                 if self.dap.wait_event("stopped", Duration::from_millis(*ms)).is_some() {
                     self.on_stopped(None)?;
                 } else if self.dap.take_event("terminated").is_some() {
-                    self.v.terminated = true;
-                    self.view = View::Terminated;
+                    self.on_terminated();
                 }
             }
             (Op::Pause, View::Running) => {
@@ -748,8 +778,7 @@ impl<'a> Session<'a> {
                     if self.dap.wait_event("stopped", Duration::from_secs(5)).is_some() {
                         self.on_stopped(None)?;
                     } else if self.dap.take_event("terminated").is_some() {
-                        self.v.terminated = true;
-                        self.view = View::Terminated;
+                        self.on_terminated();
                     }
                 }
             }
@@ -775,8 +804,7 @@ impl<'a> Session<'a> {
                     if self.dap.wait_event("stopped", Duration::from_secs(5)).is_some() {
                         self.on_stopped(None)?;
                     } else if self.dap.take_event("terminated").is_some() {
-                        self.v.terminated = true;
-                        self.view = View::Terminated;
+                        self.on_terminated();
                     }
                 }
             }
